@@ -34,6 +34,7 @@ package exif2
 //@   props C07 C03 C01
 //@   requires ir.buffer != nil
 //@   modifies ir.buffer.buf
+//@   ensures [C02] pos(ir.reader) >= old(pos(ir.reader))
 //@   ensures [C07 C03] t.IsEmbedded() && t.Type == tag.TypeShort ==> r0 == slotShort0(t.ValueOffset, t.ByteOrder)
 //@   ensures [C07 C03] !(t.IsEmbedded() && t.Type == tag.TypeShort) ==> r0 == 0
 
@@ -41,6 +42,7 @@ package exif2
 //@   props C07 C03 C01
 //@   requires ir.buffer != nil
 //@   modifies ir.buffer.buf
+//@   ensures [C02] pos(ir.reader) >= old(pos(ir.reader))
 //@   ensures [C07 C03] t.Type == tag.TypeLong ==> r0 == t.ValueOffset
 //@   ensures [C07 C03] t.Type == tag.TypeShort ==> r0 == uint32(slotShort0(t.ValueOffset, t.ByteOrder))
 //@   ensures [C07 C03] t.Type != tag.TypeLong && t.Type != tag.TypeShort ==> r0 == 0
@@ -49,6 +51,7 @@ package exif2
 //@   props C07 C03 C01
 //@   requires ir.buffer != nil
 //@   modifies ir.buffer.buf
+//@   ensures [C02] pos(ir.reader) >= old(pos(ir.reader))
 //@   ensures [C07 C03] t.IsEmbedded() && t.ID == gpsifd.GPSAltitudeRef ==> r0 == (t.Type == tag.TypeByte && slotByte0(t.ValueOffset, t.ByteOrder) == 1)
 //@   ensures [C07 C03] t.IsEmbedded() && t.ID == gpsifd.GPSLatitudeRef ==> r0 == (t.Type == tag.TypeASCII && slotByte0(t.ValueOffset, t.ByteOrder) == 'S')
 //@   ensures [C07 C03] t.IsEmbedded() && t.ID == gpsifd.GPSLongitudeRef ==> r0 == (t.Type == tag.TypeASCII && slotByte0(t.ValueOffset, t.ByteOrder) == 'W')
@@ -67,34 +70,41 @@ package exif2
 //@   props C01 C02 C08
 //@   requires irOK(ir) && n >= 0
 //@   modifies ir.po, stream(ir.reader), ir.buffer.buf
+//@   ensures [C02 C08] err == nil ==> pos(ir.reader) == old(pos(ir.reader)) + n
+//@   ensures [C02] pos(ir.reader) >= old(pos(ir.reader))
 //@   ensures [C01 C08] err == nil ==> len(buf) == n
 
 //@ func (*ifdReader).discard
 //@   props C01 C02 C08
 //@   requires irOK(ir)
 //@   modifies ir.po, stream(ir.reader), ir.buffer.buf
+//@   ensures [C02] pos(ir.reader) >= old(pos(ir.reader))
 //@   loop 0 decreases ite(err == nil, n, 0)
 
 //@ func (*ifdReader).readTagValue
 //@   props C01 C02
 //@   requires irOK(ir) && ir.buffer.pos < 84
 //@   modifies ir.po, stream(ir.reader), ir.buffer.buf
+//@   ensures [C02] pos(ir.reader) >= old(pos(ir.reader))
 //@   ensures [C01] err == nil ==> len(buf) == int(ir.buffer.tag[ir.buffer.pos].Size())
 
 //@ func (*ifdReader).seekToTag
 //@   props C01 C02
 //@   requires irOK(ir)
 //@   modifies ir.po, stream(ir.reader), ir.buffer.buf
+//@   ensures [C02] pos(ir.reader) >= old(pos(ir.reader))
 
 //@ func (*ifdReader).readUint16
 //@   props C01
 //@   requires irOK(ir)
 //@   modifies ir.po, stream(ir.reader), ir.buffer.buf
+//@   ensures [C02] pos(ir.reader) >= old(pos(ir.reader))
 
 //@ func (*ifdReader).readUint32
 //@   props C01
 //@   requires irOK(ir)
 //@   modifies ir.po, stream(ir.reader), ir.buffer.buf
+//@   ensures [C02] pos(ir.reader) >= old(pos(ir.reader))
 
 //@ func (*ifdReader).addTagBuffer
 //@   props C01 C02
@@ -108,86 +118,103 @@ package exif2
 //@   props C01 C02
 //@   requires tagPre(ir, t)
 //@   modifies ir.po, stream(ir.reader), ir.buffer.buf
+//@   ensures [C02] pos(ir.reader) >= old(pos(ir.reader))
 
 //@ func (*ifdReader).ParseDate
 //@   props C01 C02
 //@   requires tagPre(ir, t)
 //@   modifies ir.po, stream(ir.reader), ir.buffer.buf
+//@   ensures [C02] pos(ir.reader) >= old(pos(ir.reader))
 
 //@ func (*ifdReader).ParseGPSAltitude
 //@   props C01 C02
 //@   requires tagPre(ir, t)
 //@   modifies ir.po, stream(ir.reader), ir.buffer.buf
+//@   ensures [C02] pos(ir.reader) >= old(pos(ir.reader))
 
 //@ func (*ifdReader).ParseGPSCoord
 //@   props C01 C02
 //@   requires tagPre(ir, t)
 //@   modifies ir.po, stream(ir.reader), ir.buffer.buf
+//@   ensures [C02] pos(ir.reader) >= old(pos(ir.reader))
 
 //@ func (*ifdReader).ParseOffsetTime
 //@   props C01 C02
 //@   requires tagPre(ir, t)
 //@   modifies ir.po, stream(ir.reader), ir.buffer.buf
+//@   ensures [C02] pos(ir.reader) >= old(pos(ir.reader))
 
 //@ func (*ifdReader).ParseRationalU
 //@   props C01 C02
 //@   requires tagPre(ir, t)
 //@   modifies ir.po, stream(ir.reader), ir.buffer.buf
+//@   ensures [C02] pos(ir.reader) >= old(pos(ir.reader))
 
 //@ func (*ifdReader).ParseString
 //@   props C01 C02
 //@   requires tagPre(ir, t)
 //@   modifies ir.po, stream(ir.reader), ir.buffer.buf
+//@   ensures [C02] pos(ir.reader) >= old(pos(ir.reader))
 
 //@ func (*ifdReader).ParseBuffer
 //@   props C01 C02
 //@   requires tagPre(ir, t)
 //@   modifies ir.po, stream(ir.reader), ir.buffer.buf
+//@   ensures [C02] pos(ir.reader) >= old(pos(ir.reader))
 
 //@ func (*ifdReader).ParseSubSecTime
 //@   props C01 C02
 //@   requires tagPre(ir, t)
 //@   modifies ir.po, stream(ir.reader), ir.buffer.buf
+//@   ensures [C02] pos(ir.reader) >= old(pos(ir.reader))
 
 //@ func (*ifdReader).parseAperture
 //@   props C01 C02
 //@   requires tagPre(ir, t)
 //@   modifies ir.po, stream(ir.reader), ir.buffer.buf
+//@   ensures [C02] pos(ir.reader) >= old(pos(ir.reader))
 
 //@ func (*ifdReader).parseExposureBias
 //@   props C01 C02
 //@   requires tagPre(ir, t)
 //@   modifies ir.po, stream(ir.reader), ir.buffer.buf
+//@   ensures [C02] pos(ir.reader) >= old(pos(ir.reader))
 
 //@ func (*ifdReader).parseExposureTime
 //@   props C01 C02
 //@   requires tagPre(ir, t)
 //@   modifies ir.po, stream(ir.reader), ir.buffer.buf
+//@   ensures [C02] pos(ir.reader) >= old(pos(ir.reader))
 
 //@ func (*ifdReader).parseFocalLength
 //@   props C01 C02
 //@   requires tagPre(ir, t)
 //@   modifies ir.po, stream(ir.reader), ir.buffer.buf
+//@   ensures [C02] pos(ir.reader) >= old(pos(ir.reader))
 
 //@ func (*ifdReader).parseGPSDateStamp
 //@   props C01 C02
 //@   requires tagPre(ir, t)
 //@   modifies ir.po, stream(ir.reader), ir.buffer.buf
+//@   ensures [C02] pos(ir.reader) >= old(pos(ir.reader))
 
 //@ func (*ifdReader).parseGPSTimeStamp
 //@   props C01 C02
 //@   requires tagPre(ir, t)
 //@   modifies ir.po, stream(ir.reader), ir.buffer.buf
+//@   ensures [C02] pos(ir.reader) >= old(pos(ir.reader))
 
 //@ func (*ifdReader).parseLensInfo
 //@   props C01 C02
 //@   requires tagPre(ir, t)
 //@   modifies ir.po, stream(ir.reader), ir.buffer.buf
+//@   ensures [C02] pos(ir.reader) >= old(pos(ir.reader))
 
 //@ func (*ifdReader).ParseCameraModel
 //@   props C01 C02
 //@   requires tagPre(ir, t)
 //@   modifies ir.po, stream(ir.reader), ir.buffer.buf, ir.Exif
+//@   ensures [C02] pos(ir.reader) >= old(pos(ir.reader))
 
 //@ func trimNULBuffer
 //@   props C01 C02 C03
@@ -206,39 +233,51 @@ package exif2
 //@   props C01 C02 C03
 //@   requires tagPre(ir, t)
 //@   modifies ir.po, stream(ir.reader), ir.buffer.buf, ir.Exif
+//@   ensures [C02] pos(ir.reader) >= old(pos(ir.reader))
 
 //@ func (*ifdReader).readNextIfdTag
 //@   props C01 C02
 //@   requires irOK(ir)
 //@   modifies ir.po, stream(ir.reader), ir.buffer.buf, ir.buffer.len, ir.buffer.tag
+//@   ensures [C02] pos(ir.reader) >= old(pos(ir.reader))
+//@   ensures [C02] ir.buffer.len > old(ir.buffer.len) ==> pos(ir.reader) > old(pos(ir.reader))
 //@   ensures ir.buffer.len <= 84 && ir.buffer.len >= old(ir.buffer.len)
 
 //@ func (*ifdReader).readIfdHeader
 //@   props C01 C02
 //@   requires irOK(ir) && ir.buffer.pos == 0
 //@   modifies ir.po, stream(ir.reader), ir.buffer.buf, ir.buffer.len, ir.buffer.tag, ir.Exif
+//@   ensures [C02] pos(ir.reader) >= old(pos(ir.reader))
+//@   ensures [C02] ir.buffer.len > old(ir.buffer.len) ==> pos(ir.reader) > old(pos(ir.reader))
 //@   ensures ir.buffer.len <= 84 && ir.buffer.len >= old(ir.buffer.len)
-//@   loop 0 invariant 0 <= i && ir.buffer.len <= 84 && ir.buffer.len >= old(ir.buffer.len)
+//@   loop 0 invariant 0 <= i && ir.buffer.len <= 84 && ir.buffer.len >= old(ir.buffer.len) && pos(ir.reader) > old(pos(ir.reader))
 
 //@ func (*ifdReader).readSubIfds
 //@   props C01 C02
 //@   requires tagPre(ir, t)
 //@   modifies ir.po, stream(ir.reader), ir.buffer.buf, ir.buffer.len, ir.buffer.tag
+//@   ensures [C02] pos(ir.reader) >= old(pos(ir.reader))
+//@   ensures [C02] ir.buffer.len > old(ir.buffer.len) ==> pos(ir.reader) > old(pos(ir.reader))
 //@   ensures ir.buffer.len <= 84 && ir.buffer.len >= old(ir.buffer.len)
-//@   loop 0 invariant 0 <= i && ir.buffer.len <= 84 && ir.buffer.len >= old(ir.buffer.len)
+//@   loop 0 invariant 0 <= i && ir.buffer.len <= 84 && ir.buffer.len >= old(ir.buffer.len) && pos(ir.reader) >= old(pos(ir.reader)) && (i > 0 ==> pos(ir.reader) > old(pos(ir.reader))) && (i == 0 ==> ir.buffer.len == old(ir.buffer.len))
+//@   loop 0 decreases int(t.UnitCount) - i
 
 //@ func (*ifdReader).readMakerNotes
 //@   props C01 C02
 //@   requires irOK(ir) && ir.buffer.pos == 0
 //@   modifies ir.po, stream(ir.reader), ir.buffer.buf, ir.buffer.len, ir.buffer.tag, ir.Exif
+//@   ensures [C02] pos(ir.reader) >= old(pos(ir.reader))
+//@   ensures [C02] ir.buffer.len > old(ir.buffer.len) ==> pos(ir.reader) > old(pos(ir.reader))
 //@   ensures ir.buffer.len <= 84 && ir.buffer.len >= old(ir.buffer.len)
 
 //@ func (*ifdReader).readIfd
 //@   props C01 C02
 //@   requires irOK(ir) && ir.buffer.pos == 0
 //@   modifies ir.po, stream(ir.reader), ir.buffer.buf, ir.buffer.len, ir.buffer.pos, ir.buffer.tag, ir.Exif
+//@   ensures [C02] pos(ir.reader) >= old(pos(ir.reader))
 //@   ensures irOK(ir)
-//@   loop 0 invariant irOK(ir) && (ir.buffer.pos < ir.buffer.len ==> t == ir.buffer.tag[ir.buffer.pos])
+//@   loop 0 invariant irOK(ir) && (ir.buffer.pos < ir.buffer.len ==> t == ir.buffer.tag[ir.buffer.pos]) && pos(ir.reader) >= old(pos(ir.reader))
+//@   loop 0 decreases lim(ir.reader) - pos(ir.reader), ir.buffer.len - ir.buffer.pos
 
 //@ func (*ifdReader).ResetReader
 //@   props C01
@@ -276,6 +315,7 @@ package exif2
 //@ dep callback exif2.ifdReader.customTagParser
 //@   names p t -> err
 //@   modifies as(p, "*exif2.ifdReader").po, stream(as(p, "*exif2.ifdReader").reader), as(p, "*exif2.ifdReader").buffer.buf, as(p, "*exif2.ifdReader").Exif
+//@   ensures pos(as(p, "*exif2.ifdReader").reader) >= old(pos(as(p, "*exif2.ifdReader").reader))
 
 // Log marshaler of the pending-tag buffer (C15: code that only runs at low log levels must be safe, too).
 //@ func (*buffer).MarshalZerologArray
